@@ -413,63 +413,32 @@ pub(crate) fn validate_channelmodes<'a>(
     })
 }
 
-fn starts_single_wilcards<'a>(pattern: &'a str, text: &'a str) -> bool {
-    if pattern.len() <= text.len() {
-        pattern
-            .bytes()
-            .enumerate()
-            .all(|(i, c)| c == b'?' || c == text.as_bytes()[i])
-    } else {
-        false
-    }
-}
-
+// match pattern with text: '*' - any (possibly empty) run of characters,
+// '?' - exactly one character, other characters match itself.
 pub(crate) fn match_wildcard<'a>(pattern: &'a str, text: &'a str) -> bool {
-    let mut pat = pattern;
-    let mut t = text;
-    let mut asterisk = false;
-    while !pat.is_empty() {
-        let (newpat, m, cur_ast) = if let Some(i) = pat.find('*') {
-            (&pat[i + 1..], &pat[..i], true)
+    let pat = pattern.chars().collect::<Vec<_>>();
+    let t = text.chars().collect::<Vec<_>>();
+    let (mut pi, mut ti) = (0, 0);
+    // position after last asterisk in pattern and position in text where it was tried.
+    let mut last_asterisk: Option<(usize, usize)> = None;
+    while ti < t.len() {
+        if pi < pat.len() && pat[pi] == '*' {
+            last_asterisk = Some((pi + 1, ti));
+            pi += 1;
+        } else if pi < pat.len() && (pat[pi] == '?' || pat[pi] == t[ti]) {
+            pi += 1;
+            ti += 1;
+        } else if let Some((next_pi, start_ti)) = last_asterisk {
+            // asterisk consumes one character more
+            pi = next_pi;
+            ti = start_ti + 1;
+            last_asterisk = Some((next_pi, start_ti + 1));
         } else {
-            (&pat[pat.len()..pat.len()], pat, false)
-        };
-
-        if !m.is_empty() {
-            if !asterisk {
-                // if first match
-                if !starts_single_wilcards(m, t) {
-                    return false;
-                }
-                t = &t[m.len()..];
-            } else if cur_ast || !newpat.is_empty() {
-                // after asterisk. only if some rest in pattern and
-                // if last current character is asterisk
-                let mut i = 0;
-                // find first single wildcards occurrence.
-                while i <= t.len() - m.len() && !starts_single_wilcards(m, &t[i..]) {
-                    i += 1;
-                }
-                if i <= t.len() - m.len() {
-                    // if found
-                    t = &t[i + m.len()..];
-                } else {
-                    return false;
-                }
-            } else {
-                // if last pattern is not asterisk
-                if !starts_single_wilcards(m, &t[t.len() - m.len()..]) {
-                    return false;
-                }
-                t = &t[t.len()..t.len()];
-            }
+            return false;
         }
-
-        asterisk = true;
-        pat = newpat;
     }
-    // if last character in pattern is '*' or text has been fully consumed
-    (!pattern.is_empty() && pattern.as_bytes()[pattern.len() - 1] == b'*') || t.is_empty()
+    // rest of pattern can match only empty text
+    pat[pi..].iter().all(|c| *c == '*')
 }
 
 // normalize source mask - for example '*' to '*!*@*'
